@@ -3,7 +3,7 @@ import json
 import math
 import re
 
-from .. import common, strings, uiparse
+from .. import regen, common, strings, uiparse
 
 I64_MIN, I64_MAX = -2 ** 63, 2 ** 63 - 1
 
@@ -405,8 +405,15 @@ def run(tier, seed, replay=None):
     v.assumptions = ["reference: checked 64-bit integer arithmetic (truncating / and %, shift counts 0..63), IEEE doubles, UTF-16 code unit "
                      "string order, written independently of tir/ceval.rs",
                      "not judged: integers outside the range of the bound property type, non-finite doubles, NaN comparisons, legacy octal"]
+    # a constant edited into another one of the same printed length, generated over the previous outputs
+    _w = regen.HEAD + "QWidget {\n    %s\n}\n"
+    n_hist = 0 if replay else regen.regenerated_equals_fresh(v, "c03hist", [
+        (_w % "minimumWidth: 123", _w % "minimumWidth: 321"), (_w % "windowTitle: \"abc\"", _w % "windowTitle: \"abd\""),
+        (_w % "windowOpacity: 0.25", _w % "windowOpacity: 0.75"), (_w % "minimumWidth: 100 + 23", _w % "minimumWidth: 100 + 32"),
+        (_w % "enabled: 1 < 2", _w % "enabled: 2 < 1"), (_w % "windowTitle: \"abc\"", _w % "windowTitle: \"a\" + \"bcd\""),
+    ], "stale-constant-after-edit", "a constant edited", options=["--no-dynamic-binding"])
     return v.finish(
-        evaluations=len(index), distinct_nontrivial=len(distinct),
+        histories_on_disk=n_hist, evaluations=len(index), distinct_nontrivial=len(distinct),
         rule="one document per binding; literal-only expressions (depth <= 5) over the foldable operators with values biased to "
              "2^31, 2^32, 2^53, 2^62, 2^63-1 in every radix / separator / exponent spelling, strings with escapes incl. astral and "
              "BMP-high characters, enum variants, flag unions, string lists (tr / plain / mixed), object references; distinct = "
